@@ -34,6 +34,7 @@ BOUNDS = {
     "all ordered triples over 126 CPVs and 288 atoms",
 }
 
+TIME_CAP = {"thorough": 840}
 LONG = "12345678901234567890"
 
 # ---------------------------------------------------------------- CPV universe
@@ -124,7 +125,7 @@ def _ad(k, opv, s="", r="", u="", b="", n=0):
 def atom_universe(tier):
     out = []
     if tier == "quick":
-        for opv, s, r, u, b in itertools.product(A_OPV_Q, A_SLOTS, A_REPOS[:2], ["", "[x]", "[x,y]", "[y,x]", "[-x]", "[x?]"], A_BLOCKS):
+        for opv, s, r, u, b in itertools.product(A_OPV_Q, A_SLOTS, A_REPOS, ["", "[x]", "[x,y]", "[y,x]", "[-x]", "[x?]"], A_BLOCKS):
             out.append(_ad("a/x", opv, s, r, u, b))
         # every remaining menu value, varied alone and together with each slot part / blocker on a few bases
         for opv in A_OPV_T:
